@@ -254,7 +254,11 @@ impl ValveProtocol {
                 Some(ModData {
                     link: buffer.read_string::<Utf8Decoder>(None)?,
                     download_link: buffer.read_string::<Utf8Decoder>(None)?,
-                    version: buffer.read()?,
+                    version: {
+                        // a NULL byte separates the download link from the version
+                        buffer.move_cursor(1)?;
+                        buffer.read()?
+                    },
                     size: buffer.read()?,
                     multiplayer_only: buffer.read::<u8>()? == 1,
                     has_own_dll: buffer.read::<u8>()? == 1,
